@@ -61,8 +61,8 @@ macro "mode_simp" : tactic => `(tactic|
     a code which the collective branch then *tests again* — closing every case with `t` -/
 macro "mode_all " t:tactic : tactic => `(tactic|
   (cases ‹Call› with
-   | rw isPut coll v text cb varn => cases isPut <;> cases coll <;> cases v <;> cases text <;> $t:tactic
-   | post k v text cb => cases k <;> $t:tactic
+   | rw isPut coll v text cb varn zl => cases isPut <;> cases coll <;> cases v <;> cases text <;> $t:tactic
+   | post k v text cb varn zl => cases k <;> $t:tactic
    | _ => $t:tactic))
 
 theorem inv_closed : ModeInv closed := by constructor <;> simp [closed]
